@@ -248,7 +248,8 @@ Proof.
   intros W. unfold exec_return. destruct (find_op t (s_ops st)) as [o|]; simpl; auto.
   destruct (o_kind o); simpl.
   - destruct (o_cancelled o && negb b); simpl; auto using wf_remove_op.
-  - apply (wf_remove_op pr (cancel_id (o_id o) st)). apply wf_cancel_id. exact W.
+  - destruct (o_cancelled o); simpl; [apply wf_remove_op; exact W|].
+    apply (wf_remove_op pr (cancel_id (o_id o) st)). apply wf_cancel_id. exact W.
 Qed.
 
 Lemma wf_exec_flush pr st t : wf pr st -> wf pr (fst (exec_flush pr st t)).
@@ -257,9 +258,12 @@ Proof.
   destruct (o_kind o); simpl; auto.
 Qed.
 
+Lemma wf_stop_subscription pr st i : wf pr st -> wf pr (fst (stop_subscription st i)).
+Proof. intros W. unfold stop_subscription. destruct (active st i); simpl; auto using wf_cancel_id. Qed.
+
 Lemma wf_handle_tws st m : s_closed st = false -> wf TWS st -> wf TWS (fst (handle_tws st m)).
 Proof.
-  intros Hc W. destruct m; simpl; auto using wf_do_close, wf_cancel_id.
+  intros Hc W. destruct m; simpl; auto using wf_do_close, wf_stop_subscription.
   - (* init *)
     destruct (s_init st) eqn:I; [apply wf_do_close; auto|].
     destruct p; [| |apply wf_do_close; auto].
@@ -273,7 +277,7 @@ Qed.
 
 Lemma wf_handle_gws st m : s_closed st = false -> wf GWS st -> wf GWS (fst (handle_gws st m)).
 Proof.
-  intros Hc W. destruct m; simpl; auto using wf_cancel_id, wf_terminate_all.
+  intros Hc W. destruct m; simpl; auto using wf_stop_subscription, wf_terminate_all.
   - destruct p; simpl; auto using wf_terminate_all.
     all: destruct W as (A & B & C & D & E & F & G & H); unfold wf; simpl;
       repeat split; auto; try (intros; congruence).
